@@ -54,6 +54,8 @@ type c16Case struct {
 	// HoldMonitor: the goroutine that unregisters a closed route is late: it stays parked in front of the
 	// unregistration until a "releasemon" event (or the wind-down) lets it go
 	HoldMonitor bool
+	// ReadChunk: the accepting side reads the delivered connection with buffers of this many bytes (0 = large)
+	ReadChunk int
 }
 
 func prefixOf(i, n int) string {
@@ -141,7 +143,19 @@ func runC16(c c16Case) (r pbt.Result) {
 					mu.Unlock()
 					return
 				}
-				data, _ := io.ReadAll(conn)
+				var data []byte
+				if c.ReadChunk > 0 {
+					buf := make([]byte, c.ReadChunk)
+					for {
+						n, err := conn.Read(buf)
+						data = append(data, buf[:n]...)
+						if err != nil || len(data) > 1<<14 {
+							break // (no client sends that much: a connection that keeps producing bytes is cut off here)
+						}
+					}
+				} else {
+					data, _ = io.ReadAll(conn)
+				}
 				_ = conn.Close()
 				idx := -1
 				if len(data) > 0 {
@@ -165,7 +179,7 @@ func runC16(c c16Case) (r pbt.Result) {
 	}
 	var sent []*sentConn
 	stopped := false
-	hangups := 0
+	hangups, lateAccepts := 0, 0
 	splitInsidePrefix := false
 	offer := func(i int) {
 		spec := c.Conns[i%len(c.Conns)]
@@ -298,6 +312,19 @@ func runC16(c c16Case) (r pbt.Result) {
 			for name := range unregPending {
 				unregPending[name] = false
 			}
+		case "conn_during_stop":
+			// the base listener's Accept has taken the connection and has not returned yet when Run is stopped
+			if stopped {
+				continue
+			}
+			release := base.HoldNextAccept()
+			stopped = true // expectation for this connection: it may be closed or delivered, never lost
+			offer(nconn)
+			nconn++
+			cancel()
+			sim.WaitQuiescent()
+			release()
+			lateAccepts++
 		case "cancel":
 			cancel()
 			stopped = true
@@ -395,6 +422,12 @@ func runC16(c c16Case) (r pbt.Result) {
 	if reRouted > 0 {
 		r.Label("route_registered_again_after_close")
 	}
+	if lateAccepts > 0 {
+		r.Label("accept_returned_while_stopping")
+	}
+	if c.ReadChunk > 0 {
+		r.Label("small_reads_on_the_accepting_side")
+	}
 	if c.HoldMonitor {
 		r.Label("late_unregistration")
 	}
@@ -427,11 +460,12 @@ func genC16(t *rapid.T) c16Case {
 		s.Hangup = rapid.IntRange(0, 7).Draw(t, "hangup") == 0
 		return s
 	}), 1, 4).Draw(t, "conns")
-	kinds := []string{"route", "route", "route", "accept", "accept", "accept", "accept", "accept", "accept", "conn", "conn", "conn", "conn", "conn", "conn", "closelis", "closelis", "cancel", "basefail", "releasemon"}
+	kinds := []string{"route", "route", "route", "accept", "accept", "accept", "accept", "accept", "accept", "conn", "conn", "conn", "conn", "conn", "conn", "closelis", "closelis", "cancel", "basefail", "releasemon", "conn_during_stop"}
 	c.Events = rapid.SliceOfN(rapid.Custom(func(t *rapid.T) muxEvent {
 		return muxEvent{Kind: rapid.SampledFrom(kinds).Draw(t, "ev"), Which: rapid.IntRange(0, 3).Draw(t, "which")}
 	}), 3, 14).Draw(t, "events")
 	c.HoldMonitor = rapid.IntRange(0, 2).Draw(t, "holdmonitor") == 0
+	c.ReadChunk = rapid.SampledFrom([]int{0, 0, 1, 2, 3, 5}).Draw(t, "readchunk")
 	return c
 }
 
